@@ -26,11 +26,11 @@ theorem stream_eq {s : Stream} {X : Str} (h : s.rest = X) : s = ⟨s.pos, X⟩ :
 theorem loop_reads {tk tk0 tk1 : Tokenizer} {t t' : Token} {rest : List Token} {position : Nat}
     (e0 : lexLoop tk position = lexLoop tk0 position)
     (he0 : tk0.stream.atEnd = false) (hf0 : tk0.state ≠ .finished)
-    (hstep : parseNextImpl tk0 = .token t' tk1) (her : t'.erase = t.erase)
-    (ih : ∃ ts', lexLoop tk1 tk1.stream.pos = (ts', none) ∧ ts'.map Token.erase = rest.map Token.erase) :
-    ∃ ts', lexLoop tk position = (ts', none) ∧ ts'.map Token.erase = (t :: rest).map Token.erase := by
+    (hstep : parseNextImpl tk0 = .token t' tk1) (her : t'.ReadAs t)
+    (ih : ∃ ts', lexLoop tk1 tk1.stream.pos = (ts', none) ∧ ReadAsList ts' rest) :
+    ∃ ts', lexLoop tk position = (ts', none) ∧ ReadAsList ts' (t :: rest) := by
   obtain ⟨ts', h1, h2⟩ := ih
-  refine ⟨t' :: ts', ?_, by simp [her, h2]⟩
+  refine ⟨t' :: ts', ?_, ReadAsList.cons her h2⟩
   rw [e0, lexLoop_token position he0 hf0 hstep, h1]
 
 /-! ### White space at the top level of a document -/
@@ -158,12 +158,11 @@ theorem lexLoop_layout (frag : Bool) (lts : List LToken) (trail : Str) :
       lts.all LToken.okL = true → lexNest frag ctx (lts.map LToken.token) = true →
       leadsOK frag ctx lts = true → trailOK frag ctx (lts.map LToken.token) trail = true →
       tk.stream.rest = renderL lts ++ trail →
-      ∃ ts', lexLoop tk position = (ts', none) ∧
-        ts'.map Token.erase = (lts.map LToken.token).map Token.erase := by
+      ∃ ts', lexLoop tk position = (ts', none) ∧ ReadAsList ts' (lts.map LToken.token) := by
   induction lts with
   | nil =>
     intro ctx tk position hm _ _ _ ht hs
-    refine ⟨[], ?_, rfl⟩
+    refine ⟨[], ?_, ReadAsList.nil⟩
     simp only [trailOK, ctxAfter, List.map_nil, List.foldl_nil, Bool.and_eq_true, Bool.or_eq_true,
       List.isEmpty_iff] at ht
     simp only [renderL, List.flatMap_nil, List.nil_append] at hs
@@ -190,20 +189,20 @@ theorem lexLoop_layout (frag : Bool) (lts : List LToken) (trail : Str) :
     -- assembling the conclusion from a token step and the induction hypothesis
     have finish : ∀ (ctx1 : LexCtx) (tk0 tk1 : Tokenizer) (t' : Token),
         lexLoop tk position = lexLoop tk0 position → tk0.stream.atEnd = false →
-        tk0.state ≠ .finished → parseNextImpl tk0 = .token t' tk1 → t'.erase = lt.token.erase →
+        tk0.state ≠ .finished → parseNextImpl tk0 = .token t' tk1 → t'.ReadAs lt.token →
         tk1.stream.rest = renderL lts ++ trail → Matches frag ctx1 tk1 →
         lexNest frag ctx1 (lts.map LToken.token) = true → ctxStep frag ctx lt.token = ctx1 →
         ∃ ts', lexLoop tk position = (ts', none) ∧
-          ts'.map Token.erase = (lt.token :: lts.map LToken.token).map Token.erase := by
+          ReadAsList ts' (lt.token :: lts.map LToken.token) := by
       intro ctx1 tk0 tk1 t' e0 he0 hf0 hstep her hs1 hm1 hn1 hc1
       subst hc1
       exact loop_reads e0 he0 hf0 hstep her (ih _ tk1 tk1.stream.pos hm1 hoks hn1 hls ht hs1)
     -- a canonical step lemma gives the token re-positioned
     have canon : ∀ {tk0 tk1 : Tokenizer} {t : Token} {pos : Nat},
         parseNextImpl tk0 = .token (t.place pos) tk1 → t = lt.token →
-        ∃ t', parseNextImpl tk0 = .token t' tk1 ∧ t'.erase = lt.token.erase := by
+        ∃ t', parseNextImpl tk0 = .token t' tk1 ∧ t'.ReadAs lt.token := by
       intro tk0 tk1 t pos h e
-      exact ⟨_, h, by rw [Token.place_erase, e]⟩
+      exact ⟨_, h, by rw [← e]; exact Token.place_readAs pos t⟩
     obtain ⟨tok, w, e1, e2, b⟩ := lt
     simp only at hn ht hl1 hls hwl finish canon hs
     cases ctx with
